@@ -42,6 +42,14 @@ from rtamt.syntax.node.ltl.constant import Constant
 from rtamt.exception.exception import RTAMTException
 
 
+def literal_to_number(text):
+    # integer literals may be hexadecimal (0x..) or binary (0b..) and contain '_'
+    text = str(text).replace('_', '')
+    if text[:2].lower() in ('0x', '0b'):
+        return int(text, 0)
+    return text
+
+
 class LtlAstParserVisitor(LtlParserVisitor):
 
     def visitExprPredicate(self, ctx):
@@ -59,7 +67,7 @@ class LtlAstParserVisitor(LtlParserVisitor):
         # Identifier is a constant
         if id in self.const_val_dict:
             val = self.const_val_dict[id]
-            node = Constant(float(val))
+            node = Constant(float(literal_to_number(val)))
             self.phi_name_to_node_dict[node.name] = node
         # Identifier is either an input variable or a sub-formula
         elif id in self.var_subspec_dict:
@@ -218,7 +226,7 @@ class LtlAstParserVisitor(LtlParserVisitor):
         return node
 
     def visitExprLiteral(self, ctx):
-        val = float(ctx.literal().getText())
+        val = float(literal_to_number(ctx.literal().getText()))
         node = Constant(val)
         self.phi_name_to_node_dict[node.name] = node
         return node
